@@ -121,6 +121,7 @@ struct Lower {
     tmp: usize,
     n_slice_pats: usize,
     n_casts: usize,
+    n_panics: usize,
 }
 
 impl Lower {
@@ -374,6 +375,31 @@ impl VisitMut for Lower {
                 } else {
                     None
                 }
+            }
+            // P1: a call into core::panicking (what `panic!`/`assert!` expand to) is the diverging helper
+            // `k2v_panic()`, whose contract (requires false / ensures false) is chosen by the contract unit
+            Expr::Call(c) if matches!(&*c.func, Expr::Path(p) if p.path.segments.iter().any(|s| s.ident == "panicking")) => {
+                self.n_panics += 1;
+                Some(parse_quote! { k2v_panic() })
+            }
+            // R1: `type Type<T> = T; Type::<X> { .. }` (konst's way of naming a type through a macro) is `X { .. }`
+            Expr::Struct(es) if es.path.segments.len() == 1 && es.path.segments[0].ident == "Type" => {
+                let mut out = None;
+                if let PathArguments::AngleBracketed(ab) = &es.path.segments[0].arguments {
+                    if ab.args.len() == 1 {
+                        if let GenericArgument::Type(Type::Path(tp)) = &ab.args[0] {
+                            let mut ns = es.clone();
+                            let mut np = tp.path.clone();
+                            // struct-literal paths need turbofish-free generic args dropped
+                            for seg in np.segments.iter_mut() {
+                                seg.arguments = PathArguments::None;
+                            }
+                            ns.path = np;
+                            out = Some(Expr::Struct(ns));
+                        }
+                    }
+                }
+                out
             }
             Expr::MethodCall(mc) if mc.method == "offset" && mc.args.len() == 1 => {
                 // `p.offset(n as _)`: the inferred target is isize (signature of ptr::offset)
@@ -653,7 +679,7 @@ impl VisitMut for StripAttrs {
     }
     fn visit_block_mut(&mut self, b: &mut Block) {
         // nested macro_rules!/use items inside bodies are not executable
-        b.stmts.retain(|s| !matches!(s, Stmt::Item(Item::Macro(_)) | Stmt::Item(Item::Use(_)) | Stmt::Item(Item::Fn(_))));
+        b.stmts.retain(|s| !matches!(s, Stmt::Item(Item::Macro(_)) | Stmt::Item(Item::Use(_)) | Stmt::Item(Item::Fn(_))) && !matches!(s, Stmt::Item(Item::Type(t)) if t.ident == "Type"));
         visit_mut::visit_block_mut(self, b);
     }
 }
@@ -691,7 +717,7 @@ fn lower_fn_parts(sig: &mut Signature, block: &mut Block, errors: &mut Vec<Strin
         SelfToThis.visit_block_mut(block);
         block.stmts.insert(0, parse_quote! { let mut this__ = self; });
     }
-    let mut lw = Lower { errors: Vec::new(), tmp: 0, n_slice_pats: 0, n_casts: 0 };
+    let mut lw = Lower { errors: Vec::new(), tmp: 0, n_slice_pats: 0, n_casts: 0, n_panics: 0 };
     lw.visit_block_mut(block);
     for e in lw.errors.iter() {
         errors.push(format!("{}: {}", what, e));
